@@ -88,6 +88,12 @@ func hasNaNOrAnyOrUnknown(s *model.Snap) bool {
 
 func runC30(c *core.Ctx, b core.Batch) {
 	types := shard(codecTypes(b), b.N, 16)
+	if b.Cfg == "base" && b.N == 1 {
+		// dynamicpb over PRNG-generated schemas: message shapes no linked type has
+		dt := schemaDynTypes(c, 0x30, c.Scale(6, 60))
+		c.CountN("generated_schema_dynamic_types", int64(len(dt)))
+		types = append(types, dt...)
+	}
 	per := c.Scale(16, 200)
 	for ti, mt := range types {
 		name := string(mt.Descriptor().FullName())
